@@ -60,3 +60,30 @@ class ProxyEnv:
                 self.squid.destroy()
         finally:
             self.origin.stop()
+
+
+def fetch(env, path, headers=(), method="GET", body=None, timeout=10.0, version="HTTP/1.1", port=None):
+    """One request through the proxy on a fresh connection (Connection: close). -> httpref.Message"""
+    c = client.Conn(port or env.port, timeout=timeout)
+    try:
+        lines = ["%s %s %s" % (method, env.url(path), version), "Host: 127.0.0.1:%d" % env.origin.port]
+        for k, v in headers:
+            lines.append("%s: %s" % (k, v))
+        if body is not None and not any(k.lower() in ("content-length", "transfer-encoding") for k, _ in headers):
+            lines.append("Content-Length: %d" % len(body))
+        lines.append("Connection: close")
+        c.send(("\r\n".join(lines) + "\r\n\r\n").encode("latin-1") + (body or b""))
+        return c.read_response(method.encode(), timeout=timeout)
+    finally:
+        c.close()
+
+
+def usable(m, r):
+    """False (and r.inconclusive set) when a response cannot be judged."""
+    if m is None or getattr(m, "timed_out", False):
+        r.inconclusive = "client timed out"
+        return False
+    if getattr(m, "bad", False) or m.status is None:
+        r.inconclusive = "no parsable response"
+        return False
+    return True
